@@ -184,6 +184,8 @@ def ex_parsers(repo):
     src = non_test(rd(repo, "src/parser/package_json.rs"))
     m = re.search(r"const DEPENDENCY_FIELDS: \[&'static str; \d+\] = \[(.*?)\];", src, re.S)
     out["dependencyFields"] = [rust_str(s) for s in re.findall(STR, m.group(1))]
+    m = re.search(r"const NON_REGISTRY_PREFIXES: \[&'static str; \d+\] = \[(.*?)\];", src, re.S)
+    out["nonRegistryPrefixes"] = [rust_str(s) for s in re.findall(STR, m.group(1))]
     src = non_test(rd(repo, "src/parser/cargo_toml.rs"))
     m = re.search(r"const DEPENDENCY_TABLES: \[&'static str; \d+\] = \[(.*?)\];", src, re.S)
     out["dependencyTables"] = [rust_str(s) for s in re.findall(STR, m.group(1))]
@@ -304,6 +306,7 @@ def render(vals):
     L.append(f"def configDefaultEnabled : Bool := {'true' if vals['configDefaultEnabled'] else 'false'}")
     L.append(f"def configNullIsDefault : Bool := {'true' if vals['configNullIsDefault'] else 'false'}")
     L.append(f"def dependencyFields : List String := {lean_list(vals['dependencyFields'])}")
+    L.append(f"def nonRegistryPrefixes : List String := {lean_list(vals['nonRegistryPrefixes'])}")
     L.append(f"def dependencyTables : List String := {lean_list(vals['dependencyTables'])}")
     L.append(f"def skipKeys : List String := {lean_list(vals['skipKeys'])}")
     L += ["", "end Vlsp.Generated", ""]
